@@ -1197,6 +1197,13 @@ func cmdLife(args []string) {
 			case 1: // discrete origins, `*` (+ Authorization) in both header lists, no credentials, no Private-Network Access
 				s = Sem{Status: 204, Pna: "none", Pats: []cPattern{{Scheme: "https", Host: "example.com"}, {Scheme: "https", Wild: true, Host: "example.com", Port: anyPort}},
 					Meths: []string{"PUT"}, HStar: true, HAuth: true, Expose: []string{"*"}, MaxAge: 30}
+			case 2: // names beyond 255 bytes next to short ones, in every list that takes names (every order: the permutations below)
+				long := reqHdrUniverse[len(reqHdrUniverse)-1]
+				s = Sem{Status: 204, Pna: "none", Pats: []cPattern{{Scheme: "https", Host: "example.com"}}, Meths: []string{customMethods[len(customMethods)-1], "PUT"},
+					HNames: []string{"a", long, "x-a"}, Expose: []string{long, "x-e"}}
+				sort.Strings(s.Meths)
+				sort.Strings(s.HNames)
+				sort.Strings(s.Expose)
 			}
 			if ncases%3 == 1 && len(s.HNames) > 0 && !s.HStar && !(len(s.Expose) == 1 && s.Expose[0] == "*") {
 				// a name listed in BOTH header lists (they are independent sets)
